@@ -46,6 +46,19 @@ impl InboundRequestHandler {
 
         let mut inflight_requests = tokio::task::JoinSet::new();
 
+        #[cfg(bmwill_anemo_verif)]
+        let verif_conn = crate::verif::json!({
+            "ap": self.active_peers.verif_id(),
+            "gid": self.connection.verif_gid(),
+            "sid": self.connection.stable_id(),
+            "origin": crate::verif::origin(self.connection.origin()),
+            "peer": crate::verif::pid(&self.connection.peer_id()),
+        });
+        #[cfg(bmwill_anemo_verif)]
+        crate::verif::emit("h.start", verif_conn.clone());
+        #[cfg(bmwill_anemo_verif)]
+        let mut verif_guard = crate::verif::DropGuard::new("h.cancelled", verif_conn.clone());
+
         let close_reason = loop {
             tokio::select! {
                 // anemo does not currently use uni streams so we can
@@ -104,6 +117,19 @@ impl InboundRequestHandler {
             }
         };
 
+        #[cfg(bmwill_anemo_verif)]
+        {
+            let mut fields = verif_conn.clone();
+            fields["reason"] = crate::verif::reason(
+                &crate::types::DisconnectReason::from_quinn_error(&close_reason),
+            )
+            .into();
+            fields["inflight"] = inflight_requests.len().into();
+            crate::verif::emit("h.closing", fields.clone());
+            crate::verif::block_point("h.closing", fields.clone());
+            crate::verif::point("h.closing", fields).await;
+        }
+
         self.active_peers.remove_with_stable_id(
             self.connection.peer_id(),
             self.connection.stable_id(),
@@ -111,6 +137,12 @@ impl InboundRequestHandler {
         );
 
         inflight_requests.shutdown().await;
+
+        #[cfg(bmwill_anemo_verif)]
+        {
+            verif_guard.disarm();
+            crate::verif::emit("h.exit", verif_conn);
+        }
 
         debug!(peer =% self.connection.peer_id(), "InboundRequestHandler ended");
     }
@@ -142,7 +174,19 @@ impl BiStreamRequestHandler {
     }
 
     async fn handle(self) {
+        #[cfg(bmwill_anemo_verif)]
+        let verif_stream = crate::verif::json!({
+            "gid": self.connection.verif_gid(),
+            "origin": crate::verif::origin(self.connection.origin()),
+            "stream": self.recv_stream.get_ref().id().index(),
+        });
         if let Err(e) = self.do_handle().await {
+            #[cfg(bmwill_anemo_verif)]
+            {
+                let mut fields = verif_stream;
+                fields["err"] = format!("{e}").into();
+                crate::verif::emit("srv.err", fields);
+            }
             trace!("handling request failed: {e}");
         }
     }
@@ -152,7 +196,31 @@ impl BiStreamRequestHandler {
         // Read Request
         //
 
+        #[cfg(bmwill_anemo_verif)]
+        let verif_stream = crate::verif::json!({
+            "gid": self.connection.verif_gid(),
+            "origin": crate::verif::origin(self.connection.origin()),
+            "stream": self.recv_stream.get_ref().id().index(),
+        });
+        #[cfg(bmwill_anemo_verif)]
+        let mut verif_guard = {
+            let mut fields = verif_stream.clone();
+            fields["stage"] = "reading".into();
+            crate::verif::emit("srv.accept", verif_stream.clone());
+            crate::verif::DropGuard::new("srv.drop", fields)
+        };
+
         let mut request = read_request(&mut self.recv_stream).await?;
+
+        #[cfg(bmwill_anemo_verif)]
+        {
+            let mut fields = verif_stream.clone();
+            fields["route"] = request.route().into();
+            fields["nheaders"] = request.headers().len().into();
+            fields["len"] = request.body().len().into();
+            crate::verif::emit("srv.decoded", fields);
+            verif_guard.set("stage", "handling".into());
+        }
 
         // TODO maybe provide all of this via a single ConnectionMetadata type
         //
@@ -184,9 +252,26 @@ impl BiStreamRequestHandler {
         // Write Response
         //
 
+        #[cfg(bmwill_anemo_verif)]
+        {
+            let mut fields = verif_stream.clone();
+            fields["status"] = response.status().to_u16().into();
+            fields["len"] = response.body().len().into();
+            crate::verif::emit("srv.ret", fields);
+            verif_guard.set("stage", "writing".into());
+        }
+
         write_response(&mut self.send_stream, response).await?;
         self.send_stream.get_mut().finish()?;
+        #[cfg(bmwill_anemo_verif)]
+        verif_guard.set("stage", "finished".into());
         self.send_stream.get_mut().stopped().await?;
+
+        #[cfg(bmwill_anemo_verif)]
+        {
+            verif_guard.disarm();
+            crate::verif::emit("srv.end", verif_stream);
+        }
 
         Ok(())
     }
